@@ -219,9 +219,33 @@ def run_static(spec, res):
     ctx.snap = True
     try:
         processes, topology, incs = c06.build(spec, ctx)
-        engine = Engine(processes=processes, topology=topology,
-                        initial_state=copy.deepcopy(spec['tree']),
-                        display_info=False, emitter=kit.emitter_config(ctx))
+        kwargs = dict(processes=processes, topology=topology,
+                      initial_state=copy.deepcopy(spec['tree']),
+                      display_info=False, emitter=kit.emitter_config(ctx))
+        # a step that views, through a '**' port of its own, a branch that a
+        # process views through '**' too, and writes into it in every phase:
+        # the process must be handed the branch as the steps left it
+        deep = [(p, port) for p in spec['procs']
+                for port, sch in p['schema'].items() if sch == '**']
+        step_branch = None
+        if deep and spec.get('deep_step', True):
+            p0, port0 = deep[0]
+            pairs = [(v, n) for v, n in p0['W'] if v[0] == port0]
+            if pairs:
+                view0, node0 = pairs[0]
+                branch = list(node0[:len(node0) - (len(view0) - 1)])
+                leaf_rel = list(view0[1:])
+                if branch and leaf_rel:
+                    upd = {}
+                    put(upd, ['d'] + leaf_rel, 1)
+                    kwargs['steps'] = {'SW': kit.WireStep({
+                        'name': 'SW', 'run_id': ctx.run_id,
+                        'schema': {'d': '**'}, 'update': upd})}
+                    kwargs['flow'] = {'SW': []}
+                    topology['SW'] = {'d': tuple(branch)}
+                    step_branch = branch
+                    res.label('deep_port.step_writes_into_branch')
+        engine = Engine(**kwargs)
         ctx.engine = engine
         # masking needed: some store touched by a port holds more variables
         # than the process declares there
@@ -244,6 +268,16 @@ def run_static(spec, res):
                     res.fail('view', '%s of %s at t=%r: states %r, projection '
                              'of the hierarchy %r: %s' % (
                                  ev[0], ev[1], ev[2], states, want, d),
+                             'store.py:schema_topology')
+                    return
+            elif step_branch is not None and ev[0] == 'invoke' \
+                    and ev[1] == 'SW' and ev[6] is not None:
+                want = {'d': getp(ev[6], step_branch, KeyError)}
+                d = deq(ev[5], want)
+                if d:
+                    res.fail('view', 'step SW at t=%r: states %r, the branch '
+                             '%r holds %r: %s' % (ev[2], ev[5], step_branch,
+                                                  want, d),
                              'store.py:schema_topology')
                     return
         if n < 3 * spec['ticks']:
